@@ -29,7 +29,7 @@ type vfC03Login struct {
 }
 
 type vfC03Case struct {
-	Navigations int
+	Navigations             int
 	PerRequest, EncodeState bool
 	PKCE, Store             string
 	Browsers, Logins        int
